@@ -58,6 +58,8 @@ impl ValueChain {
     fn push_node(&self, mut new_node: Node) -> &Node {
         let mut cell = &self.root;
         loop {
+            #[cfg(unimock_verif)]
+            crate::verif::sync::yield_point("chain.try_insert");
             match cell.try_insert(new_node) {
                 Ok(new_node) => {
                     return new_node;
